@@ -82,10 +82,23 @@ import (
 //	rel-kinds-merged: two or more relationship kind matchers that are not below a Not. All hoisted matchers are
 //	    appended to ONE pattern kind list, which means any-of: query.And(query.Kind(r, A), query.Kind(r, B))
 //	    (no relationship satisfies it) renders as `match ()-[r:A|B]->() return r` (type A or type B).
-var knownDeviations = []string{
+var knownClassNames = []string{
 	"rel-kind-hoisted-from-disjunction",
 	"rel-kinds-merged",
 }
+
+// the classes that are actually suppressed come from /verif/known_findings.json through VERIF_KNOWN
+var knownDeviations = func() []string {
+	out := []string{"", ""}
+	for _, p := range strings.Split(os.Getenv("VERIF_KNOWN"), "|") {
+		for i, n := range knownClassNames {
+			if strings.TrimSpace(p) == n {
+				out[i] = n
+			}
+		}
+	}
+	return out
+}()
 
 // ---------------------------------------------------------------------------------------------------------------
 // atoms
@@ -951,6 +964,8 @@ func TestVerifBoundedNeo4jBuilder(t *testing.T) {
 	var (
 		cases     int64
 		knownHits int64
+		hitMu     sync.Mutex
+		hitsByClass = map[string]int{}
 		mu        sync.Mutex
 		failures  []string
 		failCount int
@@ -999,6 +1014,9 @@ func TestVerifBoundedNeo4jBuilder(t *testing.T) {
 					atomic.AddInt64(&cases, 1)
 					if res.known != "" {
 						atomic.AddInt64(&knownHits, 1)
+						hitMu.Lock()
+						hitsByClass[res.known]++
+						hitMu.Unlock()
 					} else if res.failure != "" {
 						record(res.failure)
 					}
@@ -1111,6 +1129,7 @@ wait:
 		"failures":         out,
 		"failures_total":   total,
 		"known_deviations": map[string]any{"classes": knownDeviations, "cases": atomic.LoadInt64(&knownHits)},
+		"known_deviation_hits": hitsByClass,
 	}
 	line, _ := json.Marshal(res)
 	fmt.Println("BOUNDED-RESULT " + string(line))
